@@ -466,12 +466,43 @@ def unit_and_noreturn():
     return out
 
 
+def polymorphism():
+    """one polymorphic declaration instantiated at several types in one program: swapped argument orders, nested
+    instantiations, a declaration whose xtor uses its parameters in reverse order, destructor chains, case on a call result"""
+    out = []
+    decl = ("data Swap[A, B] { Sw(y: B, x: A) }\n"
+            "data Opt[A] { None, Some(v: A) }\n")
+    defs = ("def mkA(p: i64, q: i64): Pair[i64, List[i64]] { Tup(p, Cons(q, Nil)) }\n"
+            "def mkB(p: i64, q: i64): Pair[List[i64], i64] { Tup(Cons(p, Cons(q, Nil)), q) }\n"
+            "def useA(e: Pair[i64, List[i64]]): i64 { e.case[i64, List[i64]] { Tup(n, l) => n - sum(l) } }\n"
+            "def useB(e: Pair[List[i64], i64]): i64 { e.case[List[i64], i64] { Tup(l, n) => sum(l) * n } }\n"
+            "def nest(p: i64, q: i64): List[List[i64]] { Cons(Cons(p, Nil), Cons(Cons(q, Cons(p, Nil)), Nil)) }\n"
+            "def sums(ll: List[List[i64]]): i64 { ll.case[List[i64]] { Nil => 0, Cons(l, rest) => sum(l) + (2 * sums(rest)) } }\n"
+            "def adder(p: i64): Fun[i64, Fun[i64, i64]] { new { apply(x) => new { apply(y) => (x - y) + p } } }\n"
+            "def sw1(p: i64, q: i64): Swap[i64, List[i64]] { Sw(Cons(q, Nil), p) }\n"
+            "def sw2(p: i64, q: i64): Swap[List[i64], i64] { Sw(q, Cons(p, Nil)) }\n"
+            "def opt(p: i64): Opt[Pair[i64, i64]] { if p == 0 { None } else { Some(Tup(p, p + 1)) } }\n"
+            "def optl(p: i64): Opt[List[i64]] { if p < 0 { None } else { Some(Cons(p, Nil)) } }\n")
+    bodies = {
+        'pair-swapped': "useA(mkA(a, b)) - useB(mkB(a, b))",
+        'pair-inline': "(mkA(a, b).case[i64, List[i64]] { Tup(n, l) => n + sum(l) }) * (mkB(b, a).case[List[i64], i64] { Tup(l, n) => n - sum(l) })",
+        'nested-list': "sums(nest(a, b))",
+        'curried': "((adder(a).apply[i64, Fun[i64, i64]](b)).apply[i64, i64](3)) - ((adder(b).apply[i64, Fun[i64, i64]](1)).apply[i64, i64](a))",
+        'reversed-params': "(sw1(a, b).case[i64, List[i64]] { Sw(l, n) => n - sum(l) }) + (sw2(a, b).case[List[i64], i64] { Sw(n, l) => (2 * n) + sum(l) })",
+        'opt-two-instances': "(opt(a).case[Pair[i64, i64]] { None => 7, Some(p) => p.case[i64, i64] { Tup(x, y) => x * y } }) - (optl(b).case[List[i64]] { Some(l) => sum(l), None => 9 })",
+        'stream-chain': "(((nats(a).tail[i64]).tail[i64]).head[i64]) - ((nats(b).tail[i64]).head[i64])",
+    }
+    for k, b in bodies.items():
+        out.append({'name': f"polymorphism/{k}", 'src': decl + prog(b, extra_defs=defs)})
+    return out
+
+
 def all_programs(tier='quick'):
     ps = name_reuse(("v", "x0") if tier == 'quick' else ("v", "x0", "a0", "x")) + generated_names() + effects_in_arguments() + cut_shapes() + live_variables()
-    return ps + fresh_clash() + lift_order() + positions_and_codata() + clause_orders_and_nested_types() + argument_permutations(tier) + scrutinee_reuse() + nested_labels() + covariable_arguments() + conditional_operand_effects() + goto_in_arguments() + program_level() + unit_and_noreturn()
+    return ps + fresh_clash() + lift_order() + positions_and_codata() + clause_orders_and_nested_types() + argument_permutations(tier) + scrutinee_reuse() + nested_labels() + covariable_arguments() + conditional_operand_effects() + goto_in_arguments() + program_level() + unit_and_noreturn() + polymorphism()
 
 
 def effect_sequenced(tier='quick'):
     """programs inside the fragment where Fun's evaluation order is unambiguous (C01, C02): no effects in call /
     constructor / destructor / operator arguments and no effects under codata-typed bindings"""
-    return name_reuse(("v", "x0") if tier == 'quick' else ("v", "x0", "a0", "x")) + generated_names() + cut_shapes() + live_variables() + fresh_clash() + lift_order() + [p for p in positions_and_codata() if not p['name'].startswith('codata-eff')] + clause_orders_and_nested_types() + argument_permutations(tier) + scrutinee_reuse() + nested_labels() + covariable_arguments() + conditional_operand_effects() + program_level() + unit_and_noreturn()
+    return name_reuse(("v", "x0") if tier == 'quick' else ("v", "x0", "a0", "x")) + generated_names() + cut_shapes() + live_variables() + fresh_clash() + lift_order() + [p for p in positions_and_codata() if not p['name'].startswith('codata-eff')] + clause_orders_and_nested_types() + argument_permutations(tier) + scrutinee_reuse() + nested_labels() + covariable_arguments() + conditional_operand_effects() + program_level() + unit_and_noreturn() + polymorphism()
